@@ -1,6 +1,7 @@
 package zz_verifsim
 
 import (
+	"crypto/sha256"
 	"crypto/ecdsa"
 	"crypto/ed25519"
 	"crypto/elliptic"
@@ -120,6 +121,8 @@ type Node struct {
 
 	committed []*hotstuff.Block // observed CommitEvents, in order
 	lastView  hotstuff.View
+	vcView    hotstuff.View // view partitions: the view the replica was last seen in, and since when
+	vcSince   time.Duration
 	curEvent  any // event being handled in the current step
 	stepEvents []any
 	drained    bool
@@ -369,7 +372,22 @@ func (m *monBase) Verify(sig hotstuff.QuorumSignature, message []byte) error {
 		m.nd.w.probe("async-verification-parked-below-cache")
 		m.nd.w.parkIfBackground(m.nd)
 	}
-	err := m.inner.Verify(sig, message)
+	var err error
+	if m.layer == "inner" && m.nd.w.memo != nil && sig != nil {
+		// Twins-style plans: signature verification is a pure function of (scheme, keys, signers, signature bytes,
+		// message) and every replica verifies the same certificates; the real verification runs once per distinct
+		// input of the run and its verdict is shared. Nothing is stubbed.
+		k := memoKey(sig, message)
+		if e, ok := m.nd.w.memo[k]; ok {
+			err = e.err
+			m.nd.w.probe("verify-memo-hit")
+		} else {
+			err = m.inner.Verify(sig, message)
+			m.nd.w.memo[k] = memoVerdict{err}
+		}
+	} else {
+		err = m.inner.Verify(sig, message)
+	}
 	if m.layer == "outer" {
 		for _, f := range m.nd.w.hooks.onVerify {
 			f(m.nd, "verify", sig, message, nil, err)
@@ -390,6 +408,21 @@ func (m *monBase) BatchVerify(sig hotstuff.QuorumSignature, batch map[hotstuff.I
 		m.nd.w.probe("cache-miss-batchverify")
 	}
 	return err
+}
+
+type memoVerdict struct{ err error }
+
+func memoKey(sig hotstuff.QuorumSignature, message []byte) [32]byte {
+	h := sha256.New()
+	sig.Participants().ForEach(func(id hotstuff.ID) { _, _ = h.Write(id.ToBytes()) })
+	_, _ = h.Write([]byte{0xff})
+	b := sig.ToBytes()
+	_, _ = h.Write(hotstuff.View(len(b)).ToBytes())
+	_, _ = h.Write(b)
+	_, _ = h.Write(message)
+	var k [32]byte
+	copy(k[:], h.Sum(nil))
+	return k
 }
 
 // vdWrap wraps the real ViewDuration: it learns each armed timeout (to schedule a driver wake-up),
